@@ -175,12 +175,13 @@ def report_mismatches(chk, files, mism, tag):
 
 
 # ------------------------------------------------------------ wide-scope random histories
-NAMES = ["a", "b", "c", "dd"]
+NAMES = ["a", "b", "c", "dd", "n"]        # "n" is also the name of the call's (integer) argument: another namespace
 VN = ["v", "w"]
 EXPRS = [["+", ["n", "a"], ["i", 1]], ["-", ["n", "a"], ["i", 1]], ["*", ["i", 2], ["n", "b"]],
          ["+", ["n", "a"], ["n", "b"]], ["*", ["n", "a"], ["n", "c"]], ["a", "n"],
          ["+", ["a", "n"], ["n", "a"]], ["min", ["n", "a"], ["n", "b"]], ["max", ["n", "c"], ["i", 2]],
-         ["//", ["n", "dd"], ["i", 2]], ["-", ["*", ["n", "a"], ["n", "b"]], ["n", "c"]]]
+         ["//", ["n", "dd"], ["i", 2]], ["-", ["*", ["n", "a"], ["n", "b"]], ["n", "c"]],
+         ["+", ["n", "n"], ["a", "n"]], ["+", ["n", "n"], ["i", 1]], ["*", ["a", "n"], ["n", "n"]]]
 
 
 def rand_tok(rng, variadic):
